@@ -1197,6 +1197,12 @@ def pre_build(run):
 
 
 def evaluate(cases, scratch, procs=None):
+    # import in the parent: the forked workers inherit the loaded modules
+    import h5py  # noqa: F401
+    import hdf5plugin  # noqa: F401
+    import dclab  # noqa: F401
+    import dclab.cli  # noqa: F401
+    import dclab.rtdc_dataset.check  # noqa: F401
     base = os.path.join(scratch, "files")
     os.makedirs(base, exist_ok=True)
     jobs = [(c, base) for c in cases]
@@ -1212,15 +1218,28 @@ def evaluate(cases, scratch, procs=None):
 
 
 def run(run):
-    ncases = 1400 if run.thorough else 80
+    import time
     cases = load_corpus()
     run.count("corpus", len(cases))
-    k = 0
-    while len(cases) < ncases:
-        cases.append(gen_case(run.rng, k))
-        k += 1
-    records = evaluate(cases, run.scratch)
+    t0 = time.time()
+    records = evaluate(cases, run.scratch) if cases else []
+    # quick tier: batches of generated cases (always the same sequence for a
+    # seed) until 28 s are used, between 60 and 260 cases; thorough: 1400
+    total, k = 0, 0
+    target = 1400 if run.thorough else 260
+    while total < target:
+        batch = []
+        for _ in range(200 if run.thorough else 30):
+            batch.append(gen_case(run.rng, k))
+            k += 1
+        records += evaluate(batch, run.scratch)
+        total += len(batch)
+        if not run.thorough and total >= 60 and time.time() - t0 > 28:
+            break
+    t1 = time.time()
     feed(run, records)
+    run.extra["timing_s"] = dict(files_and_checker=round(t1 - t0, 1),
+                                 model=round(time.time() - t1, 1))
 
 
 def feed(run, records):
